@@ -13,7 +13,8 @@ package main
 //      in-place operations)                                -> conc (same results,
 //      shared inputs untouched?).  The same program built with -race and run by
 //      bin/plugins/C20.py reports data races.
-// Line: 20 routine nargs mutated[nargs] det conc callIndex seedLow32 size
+// Line: 20 routine nargs mutated[nargs] det conc panics callIndex seedLow32 size
+// (booleans are printed as 0/1 and the comparator accepts nothing else)
 
 import (
 	"bytes"
@@ -23,11 +24,13 @@ import (
 	"math/rand"
 	"os"
 	"os/exec"
+	"reflect"
 	"runtime"
 	"sort"
 	"strconv"
 	"strings"
 	"sync"
+	"sync/atomic"
 
 	"github.com/aclements/go-moremath/fit"
 	"github.com/aclements/go-moremath/graph"
@@ -44,9 +47,42 @@ type c20Case struct {
 	Seed int64  `json:"seed"`
 	Size int    `json:"size"`
 	Cap  int    `json:"cap"` // spare capacity of the argument windows: 0 mixed per array, 1 all tight, 2 all generous
+	// Shape of the graphs: 0 sparse random, 1 a hub component with 100+ edges leaving it into 64+
+	// distinct components, 2 long adjacency lists (> 64 and > 1024 entries) with many parallel
+	// edges, 3 dense
+	Shape int `json:"shape"`
+	// Shape of the Samples: Sorted flag = samp%2 (ascending data), weights = samp/2: 0 all
+	// positive, 1 exact zeros scattered (one directly followed by a non-zero weight), 2 zero at
+	// the first and at the last position (unweighted entries ignore the weights)
+	Samp int `json:"samp"`
+	Sp   int    `json:"sp,omitempty"` // 1: the float data contain NaN, +Inf, -Inf, -0, the largest and the smallest positive double; 2: the same without NaN
+}
+
+// which special-values flavour an entry is run with (in addition to its ordinary cases).
+// OPEN OBSERVATIONS on the unchanged tree (reported, outside C20's quantifier "random inputs that are
+// unsorted and contain ties"): stats.MannWhitneyUTest never returns when a sample contains a NaN
+// (utest.go tie loop: merged[i] == v1 is false for NaN, i never advances); KDE.Bounds/PDF/CDF do not
+// return for NaN, +-Inf or +-MaxFloat64 data (bracket expansion / reflection series never terminate).
+// Those entries are therefore not run on such data - every other entry is.
+func c20SpecialFor(name string) int {
+	switch {
+	case strings.Contains(name, "KDE"):
+		return 0
+	case name == "stats.MannWhitneyUTest":
+		return 2
+	case name == "stats.Sample.Sort":
+		// "the in-place operation must change something" is demanded: with a NaN the weighted sort's
+		// plain < comparison may leave an unsorted sample as it is
+		return 2
+	}
+	return 1
 }
 
 var c20CapMode int
+var c20Shape, c20Samp int
+var c20Special int
+
+var c20SpecialVals = []float64{math.NaN(), math.Inf(1), math.Inf(-1), math.Copysign(0, -1), math.MaxFloat64, 5e-324, math.Float64frombits(0x7ff8000000000123)}
 
 // an instantiated call
 type c20Inst struct {
@@ -166,8 +202,12 @@ func snapF(p *[]float64) func() []uint64 {
 	c20Floats = append(c20Floats, p)
 	c20Scramble = append(c20Scramble, func() func() {
 		saved := append([]float64(nil), (*p)...)
+		wasSorted := sort.Float64sAreSorted(saved)
 		for j := range *p {
 			(*p)[j] = saved[len(saved)-1-j]*0.5 + float64(j%3)
+		}
+		if wasSorted { // ascending data stays ascending: a Sample flagged Sorted must remain one
+			sort.Float64s(*p)
 		}
 		return func() { copy(*p, saved) }
 	})
@@ -255,6 +295,21 @@ func c20Data(rng *rand.Rand, n int) []float64 {
 	if n >= 2 && sort.Float64sAreSorted(xs) {
 		xs[0], xs[n-1] = xs[n-1]+1, xs[0]-1
 	}
+	if c20Special != 0 && n >= 3 { // special values at random places (sorting with NaN, -0 == 0 ties, overflow)
+		for k := 0; k < 1+n/8; k++ {
+			v := c20SpecialVals[rng.Intn(len(c20SpecialVals))]
+			if c20Special == 2 && v != v {
+				v = math.Inf(1)
+			}
+			xs[rng.Intn(n)] = v
+		}
+		if sort.Float64sAreSorted(xs) { // still not sorted (NaNs sort first)
+			xs[0], xs[n-1] = xs[n-1], xs[0]
+			if sort.Float64sAreSorted(xs) {
+				xs[0], xs[n-1] = 3, 2
+			}
+		}
+	}
 	return houseF(rng, xs)
 }
 func c20Weights(rng *rand.Rand, n int) []float64 {
@@ -264,10 +319,132 @@ func c20Weights(rng *rand.Rand, n int) []float64 {
 	}
 	return houseF(rng, ws)
 }
+// high-degree structure (shapes 1 and 2; the requested size is only a lower bound there)
+func c20HubGraph(rng *rand.Rand, n int) graph.IntGraph {
+	N := 130 + rng.Intn(40)
+	if n > N {
+		N = n
+	}
+	g := make(graph.IntGraph, N)
+	// the hub component 0 -> 1 -> 2 -> 0; every other node is a component of its own or part of
+	// a small cycle further down, so that more than 64 DISTINCT components are entered
+	g[0], g[1], g[2] = []int{1}, []int{2}, []int{0}
+	for h, cnt := range []int{90, 50, 30} {
+		for k := 0; k < cnt; k++ {
+			g[h] = append(g[h], 3+rng.Intn(N-3))
+		}
+		// plus every third node once more: parallel edges, and all targets covered by hub node 0
+		if h == 0 {
+			for t := 3; t < N; t++ {
+				g[0] = append(g[0], t)
+				if t%3 == 0 {
+					g[0] = append(g[0], t)
+				}
+			}
+		}
+		rng.Shuffle(len(g[h]), func(a, b int) { g[h][a], g[h][b] = g[h][b], g[h][a] })
+	}
+	for i := 3; i < N; i++ {
+		switch rng.Intn(4) {
+		case 0:
+			if i+1 < N {
+				g[i] = append(g[i], i+1)
+			}
+		case 1:
+			if i+2 < N {
+				g[i] = append(g[i], i+2, i+1, i+2)
+			}
+		case 2:
+			if i > 4 && i%5 == 0 { // a small cycle i -> i-1 -> i (when i-1 points forward to i)
+				g[i] = append(g[i], i-1)
+				g[i-1] = append(g[i-1], i)
+			}
+		}
+	}
+	for i := range g {
+		g[i] = houseI(rng, g[i])
+	}
+	return g
+}
+func c20LongAdjGraph(rng *rand.Rand, n int) graph.IntGraph {
+	N := 40 + rng.Intn(30)
+	if n > N {
+		N = n
+	}
+	g := make(graph.IntGraph, N)
+	for k := 0; k < 1100+rng.Intn(200); k++ { // > 1024 entries, mostly parallel edges
+		g[0] = append(g[0], rng.Intn(N))
+	}
+	for k := 0; k < 70+rng.Intn(30); k++ { // > 64
+		g[1] = append(g[1], rng.Intn(N))
+	}
+	for i := 2; i < N; i++ {
+		d := rng.Intn(3)
+		for k := 0; k < d; k++ {
+			g[i] = append(g[i], rng.Intn(N))
+		}
+		if rng.Intn(5) == 0 {
+			for k := 0; k < 66; k++ {
+				g[i] = append(g[i], (i+k*k)%N)
+			}
+		}
+	}
+	for i := range g {
+		g[i] = houseI(rng, g[i])
+	}
+	return g
+}
+
+// Sample shapes (c20Samp): Sorted flag with ascending data x weights nil / all positive / exact
+// zeros (scattered with a zero directly followed by a non-zero weight; at both ends)
+func c20Sample(rng *rand.Rand, n int, weighted bool) stats.Sample {
+	sorted := c20Samp%2 == 1
+	xs := c20Data(rng, n)
+	if sorted {
+		sort.Float64s(xs) // in its window; ties stay
+	}
+	s := stats.Sample{Xs: xs, Sorted: sorted}
+	if !weighted {
+		return s
+	}
+	ws := c20Weights(rng, n)
+	if n >= 2 {
+		switch c20Samp / 2 {
+		case 1:
+			for i := range ws {
+				if rng.Intn(3) == 0 {
+					ws[i] = 0
+				}
+			}
+			p := rng.Intn(n - 1)
+			ws[p], ws[p+1] = 0, 1.5+float64(p)/64
+		case 2:
+			ws[0], ws[n-1] = 0, 0
+			if n >= 3 {
+				ws[1] = 2.25
+			} else {
+				ws[1] = 2.25 // n == 2: only the first is zero
+			}
+		}
+	}
+	s.Weights = ws
+	return s
+}
+
 func c20Graph(rng *rand.Rand, n int) graph.IntGraph {
+	switch c20Shape {
+	case 1:
+		return c20HubGraph(rng, n)
+	case 2:
+		return c20LongAdjGraph(rng, n)
+	}
+	dense := c20Shape == 3
 	g := make(graph.IntGraph, n)
 	for i := range g {
 		d := rng.Intn(4)
+		if dense {
+			d = n/2 + rng.Intn(n+1)
+		}
 		for k := 0; k < d; k++ {
 			g[i] = append(g[i], rng.Intn(n))
 		}
@@ -334,20 +511,14 @@ func init() {
 			suffix = "/weighted"
 		}
 		add(c20Call{"stats.Sample.Quantile" + suffix, 2, 2, func(rng *rand.Rand, n int) func() *c20Inst {
-			s := stats.Sample{Xs: c20Data(rng, n)}
-			if weighted {
-				s.Weights = c20Weights(rng, n)
-			}
+			s := c20Sample(rng, n, weighted)
 			q := rng.Float64()
 			return one(&c20Inst{[]func() []uint64{snapF(&s.Xs), snapF(&s.Weights)}, func() []uint64 {
 				return []uint64{math.Float64bits(s.Quantile(q)), math.Float64bits(s.Quantile(0)), math.Float64bits(s.Quantile(1))}
 			}})
 		}})
 		add(c20Call{"stats.Sample.IQR" + suffix, 3, 2, func(rng *rand.Rand, n int) func() *c20Inst {
-			s := stats.Sample{Xs: c20Data(rng, n)}
-			if weighted {
-				s.Weights = c20Weights(rng, n)
-			}
+			s := c20Sample(rng, n, weighted)
 			return one(&c20Inst{[]func() []uint64{snapF(&s.Xs), snapF(&s.Weights)}, func() []uint64 {
 				return []uint64{math.Float64bits(s.IQR())}
 			}})
@@ -355,7 +526,7 @@ func init() {
 	}
 	// ---- routine 4: SampleCI
 	add(c20Call{"stats.QuantileCIResult.SampleCI", 4, 1, func(rng *rand.Rand, n int) func() *c20Inst {
-		s := stats.Sample{Xs: c20Data(rng, n)}
+		s := c20Sample(rng, n, false)
 		q, c := 0.1+0.8*rng.Float64(), 0.5+0.45*rng.Float64()
 		return one(&c20Inst{[]func() []uint64{snapF(&s.Xs)}, func() []uint64 {
 			ci := stats.QuantileCI(len(s.Xs), q, c)
@@ -437,6 +608,7 @@ func init() {
 	// ---- routine 7: graph.Equal
 	add(c20Call{"graph.Equal", 7, 2, func(rng *rand.Rand, n int) func() *c20Inst {
 		g1 := c20Graph(rng, n)
+		n = len(g1)
 		g2 := make(graph.IntGraph, len(g1))
 		same := rng.Intn(2) == 0
 		for i := range g1 {
@@ -459,17 +631,24 @@ func init() {
 	// ---- routine 8: SCC
 	add(c20Call{"graphalg.SCC", 8, 1, func(rng *rand.Rand, n int) func() *c20Inst {
 		g := c20Graph(rng, n)
+		n = len(g)
 		return one(&c20Inst{[]func() []uint64{snapG(g)}, func() []uint64 {
-			s := graphalg.SCC(g, graphalg.SCCSubnodeComponent|graphalg.SCCEdges)
-			r := []uint64{uint64(s.NumNodes())}
-			for c := 0; c < s.NumNodes(); c++ {
-				r = append(r, uint64(len(s.Subnodes(c))))
-				r = append(r, ib(s.Subnodes(c))...)
-				r = append(r, uint64(len(s.Out(c))))
-				r = append(r, ib(s.Out(c))...)
-			}
-			for i := 0; i < n; i++ {
-				r = append(r, uint64(s.SubnodeComponent(i)))
+			var r []uint64
+			// every flag setting; the full observable: every Subnodes and Out list in order
+			for _, flags := range []graphalg.SCCFlags{graphalg.SCCSubnodeComponent | graphalg.SCCEdges, graphalg.SCCEdges, graphalg.SCCSubnodeComponent, 0} {
+				s := graphalg.SCC(g, flags)
+				r = append(r, uint64(s.NumNodes()))
+				for c := 0; c < s.NumNodes(); c++ {
+					r = append(r, uint64(len(s.Subnodes(c))))
+					r = append(r, ib(s.Subnodes(c))...)
+					r = append(r, uint64(len(s.Out(c))))
+					r = append(r, ib(s.Out(c))...)
+				}
+				if flags&graphalg.SCCSubnodeComponent != 0 {
+					for i := 0; i < n; i++ {
+						r = append(r, uint64(s.SubnodeComponent(i)))
+					}
+				}
 			}
 			return r
 		}})
@@ -483,6 +662,7 @@ func init() {
 		}
 		add(c20Call{name, 9, 3, func(rng *rand.Rand, n int) func() *c20Inst {
 			g := c20Graph(rng, n)
+			n = len(g)
 			var nodes []int
 			for i := n - 1; i >= 0; i-- { // descending: unsorted on purpose
 				if rng.Intn(2) == 0 {
@@ -490,17 +670,31 @@ func init() {
 				}
 			}
 			var edges []graph.Edge
+			kept := map[int]bool{}
+			for _, v := range nodes {
+				kept[v] = true
+			}
 			for i := n - 1; i >= 0; i-- {
 				for e := len(g[i]) - 1; e >= 0; e-- {
-					if rng.Intn(3) == 0 {
+					// SubgraphKeep's edges must join kept nodes (anything else is outside its domain: it panics
+					// or silently attaches the edge to node 0)
+					if rng.Intn(3) == 0 && (!keep || (kept[i] && kept[g[i][e]])) {
 						edges = append(edges, graph.Edge{Node: i, Edge: e})
 					}
 				}
 			}
 			nodes = houseI(rng, nodes)
+			// the edge list is a guarded window as well (whole backing array in the snapshot)
+			espare := c20Spare(rng, len(edges))
+			eback := make([]graph.Edge, c20Guard+len(edges)+espare+c20Guard)
+			for i := range eback {
+				eback[i] = graph.Edge{Node: c20SentI, Edge: c20SentI}
+			}
+			copy(eback[c20Guard:], edges)
+			edges = eback[c20Guard : c20Guard+len(edges) : c20Guard+len(edges)+espare]
 			snapE := func() []uint64 {
-				var r []uint64
-				for _, e := range edges {
+				r := []uint64{uint64(len(edges))}
+				for _, e := range eback {
 					r = append(r, uint64(e.Node), uint64(e.Edge))
 				}
 				return r
@@ -592,6 +786,21 @@ func init() {
 			return one(&c20Inst{[]func() []uint64{snapF(&xs), snapF(&ys)}, call})
 		}})
 	}
+	// ... for functions taking a Sample: ascending data with the Sorted flag set when samp is odd
+	sampleOf := func(xs []float64) stats.Sample {
+		return stats.Sample{Xs: xs, Sorted: len(xs) > 0 && sort.Float64sAreSorted(xs)}
+	}
+	twoS := func(name string, f func(xs, ys []float64, rng *rand.Rand) func() []uint64) {
+		add(c20Call{name, 11, 2, func(rng *rand.Rand, n int) func() *c20Inst {
+			xs, ys := c20Data(rng, n), c20Data(rng, n)
+			if c20Samp%2 == 1 {
+				sort.Float64s(xs)
+				sort.Float64s(ys)
+			}
+			call := f(xs, ys, rng)
+			return one(&c20Inst{[]func() []uint64{snapF(&xs), snapF(&ys)}, call})
+		}})
+	}
 	f1 := func(g func(xs []float64) float64) func(xs, ys []float64, rng *rand.Rand) func() []uint64 {
 		return func(xs, ys []float64, rng *rand.Rand) func() []uint64 {
 			return func() []uint64 { return []uint64{math.Float64bits(g(xs))} }
@@ -614,54 +823,88 @@ func init() {
 			return []uint64{math.Float64bits(m), math.Float64bits(lo), math.Float64bits(hi)}
 		}
 	})
-	two("stats.Sample.{Mean,Variance,StdDev,GeoMean,Sum,Weight,Bounds,MeanCI,Copy}", func(xs, ws []float64, rng *rand.Rand) func() []uint64 {
-		for i := range ws {
-			ws[i] = math.Abs(ws[i]) + 0.5 + float64(i)/512
+	// every Sample method, on every Sample shape (Sorted flag x weights nil / positive / with zeros);
+	// each method is called under its own recover (Variance, StdDev, MeanCI panic on weighted samples)
+	for _, weighted := range []bool{true, false} {
+		weighted := weighted
+		name := "stats.Sample.{Mean,Variance,StdDev,GeoMean,Sum,Weight,Bounds,MeanCI,Copy}"
+		if !weighted {
+			name += "/unweighted"
 		}
-		s := stats.Sample{Xs: xs, Weights: ws}
-		return func() []uint64 {
-			a, b := s.Bounds()
-			c := s.Copy()
-			r := []uint64{math.Float64bits(s.Mean()), math.Float64bits(s.Sum()), math.Float64bits(s.Weight()), math.Float64bits(a), math.Float64bits(b), math.Float64bits(s.GeoMean())}
-			u := stats.Sample{Xs: xs}
-			m, lo, hi := u.MeanCI(0.9)
-			r = append(r, math.Float64bits(u.Variance()), math.Float64bits(u.StdDev()), math.Float64bits(m), math.Float64bits(lo), math.Float64bits(hi))
-			r = append(r, fb(c.Xs)...)
-			r = append(r, fb(c.Weights)...)
-			// Copy shares no storage: scribbling on the copy must not reach the original
-			for i := range c.Xs {
-				c.Xs[i] = -1
-			}
-			for i := range c.Weights {
-				c.Weights[i] = -1
-			}
-			return r
-		}
-	})
-	two("stats.TwoSampleTTest", func(xs, ys []float64, rng *rand.Rand) func() []uint64 {
+		add(c20Call{name, 11, 2, func(rng *rand.Rand, n int) func() *c20Inst {
+			s := c20Sample(rng, n, weighted)
+			conf := 0.5 + 0.45*rng.Float64()
+			return one(&c20Inst{[]func() []uint64{snapF(&s.Xs), snapF(&s.Weights)}, func() []uint64 {
+				var r []uint64
+				try := func(f func()) {
+					defer func() {
+						if e := recover(); e != nil {
+							r = append(r, 0xbad0bad0, errBits(fmt.Errorf("%v", e)))
+						}
+					}()
+					f()
+				}
+				try(func() { a, b := s.Bounds(); r = append(r, math.Float64bits(a), math.Float64bits(b)) })
+				try(func() { r = append(r, math.Float64bits(s.Mean())) })
+				try(func() { r = append(r, math.Float64bits(s.GeoMean())) })
+				try(func() { r = append(r, math.Float64bits(s.Sum())) })
+				try(func() { r = append(r, math.Float64bits(s.Weight())) })
+				try(func() { r = append(r, math.Float64bits(s.Variance())) })
+				try(func() { r = append(r, math.Float64bits(s.StdDev())) })
+				try(func() {
+					m, lo, hi := s.MeanCI(conf)
+					r = append(r, math.Float64bits(m), math.Float64bits(lo), math.Float64bits(hi))
+				})
+				try(func() { r = append(r, math.Float64bits(s.Quantile(0.5)), math.Float64bits(s.Quantile(0.999)), math.Float64bits(s.IQR())) })
+				try(func() {
+					c := s.Copy()
+					r = append(r, fb(c.Xs)...)
+					r = append(r, fb(c.Weights)...)
+					if c.Sorted {
+						r = append(r, 1)
+					}
+					// Copy shares no storage: scribbling on the copy must not reach the original
+					for i := range c.Xs {
+						c.Xs[i] = -1
+					}
+					for i := range c.Weights {
+						c.Weights[i] = -1
+					}
+				})
+				return r
+			}})
+		}})
+	}
+	twoS("stats.TwoSampleTTest", func(xs, ys []float64, rng *rand.Rand) func() []uint64 {
 		alt := alts[rng.Intn(3)]
-		return func() []uint64 { return statsRes(stats.TwoSampleTTest(stats.Sample{Xs: xs}, stats.Sample{Xs: ys}, alt)) }
+		return func() []uint64 { return statsRes(stats.TwoSampleTTest(sampleOf(xs), sampleOf(ys), alt)) }
 	})
-	two("stats.TwoSampleWelchTTest", func(xs, ys []float64, rng *rand.Rand) func() []uint64 {
+	twoS("stats.TwoSampleWelchTTest", func(xs, ys []float64, rng *rand.Rand) func() []uint64 {
 		alt := alts[rng.Intn(3)]
-		return func() []uint64 { return statsRes(stats.TwoSampleWelchTTest(stats.Sample{Xs: xs}, stats.Sample{Xs: ys}, alt)) }
+		return func() []uint64 { return statsRes(stats.TwoSampleWelchTTest(sampleOf(xs), sampleOf(ys), alt)) }
 	})
 	two("stats.PairedTTest", func(xs, ys []float64, rng *rand.Rand) func() []uint64 {
 		alt := alts[rng.Intn(3)]
 		return func() []uint64 { return statsRes(stats.PairedTTest(xs, ys, 0.25, alt)) }
 	})
-	two("stats.OneSampleTTest", func(xs, ys []float64, rng *rand.Rand) func() []uint64 {
+	twoS("stats.OneSampleTTest", func(xs, ys []float64, rng *rand.Rand) func() []uint64 {
 		alt := alts[rng.Intn(3)]
-		return func() []uint64 { return statsRes(stats.OneSampleTTest(stats.Sample{Xs: xs}, 1.5, alt)) }
+		return func() []uint64 { return statsRes(stats.OneSampleTTest(sampleOf(xs), 1.5, alt)) }
 	})
-	two("stats.BandwidthScott/Silverman", func(xs, ys []float64, rng *rand.Rand) func() []uint64 {
+	twoS("stats.BandwidthScott/Silverman", func(xs, ys []float64, rng *rand.Rand) func() []uint64 {
 		return func() []uint64 {
-			return []uint64{math.Float64bits(stats.BandwidthScott(stats.Sample{Xs: xs})), math.Float64bits(stats.BandwidthSilverman(stats.Sample{Xs: xs}))}
+			return []uint64{math.Float64bits(stats.BandwidthScott(sampleOf(xs))), math.Float64bits(stats.BandwidthSilverman(sampleOf(xs)))}
 		}
 	})
 	two("vec.Concat/prefix-slices", func(xs, ys []float64, rng *rand.Rand) func() []uint64 {
 		// first argument is a short prefix of a longer array: plenty of spare capacity behind it
 		k, m := 1+rng.Intn(2), 1+rng.Intn(2)
+		if k > len(xs) { // size 1: the prefix cannot be longer than the slice (xs[:2] would panic in the HARNESS)
+			k = len(xs)
+		}
+		if m > len(ys) {
+			m = len(ys)
+		}
 		return func() []uint64 {
 			c := vec.Concat(xs[:k], ys[:m], ys[len(ys)-1:])
 			r := fb(c)
@@ -693,7 +936,8 @@ func init() {
 		return func() []uint64 { return append(fb(vec.Linspace(-1, 3, n)), fb(vec.Logspace(0, 3, n, 10))...) }
 	})
 	add(c20Call{"stats.UDist.{PMF,CDF}", 11, 2, func(rng *rand.Rand, n int) func() *c20Inst {
-		t := houseI(rng, []int{2, 1, 3, 1, 2})
+		// tie vectors that are NOT palindromes: the in-place reversal of the history step changes them
+		t := houseI(rng, [][]int{{1, 2, 3, 1, 2}, {3, 1, 2, 2, 1}, {2, 2, 1, 1, 3}, {1, 1, 1, 2, 4}}[rng.Intn(4)])
 		d := stats.UDist{N1: 4, N2: 5, T: t}
 		u := float64(rng.Intn(41)) / 2
 		none := []float64(nil)
@@ -708,10 +952,18 @@ func init() {
 			h.bins = append(h.bins, uint(rng.Intn(5)))
 		}
 		h.bins = append(h.bins, 3)
+		// the counts the library obtains through Counts() are a guarded window too
+		bspare := c20Spare(rng, len(h.bins))
+		bback := make([]uint, c20Guard+len(h.bins)+bspare+c20Guard)
+		for i := range bback {
+			bback[i] = 777777
+		}
+		copy(bback[c20Guard:], h.bins)
+		h.bins = bback[c20Guard : c20Guard+len(h.bins) : c20Guard+len(h.bins)+bspare]
 		q := 0.2 + 0.6*rng.Float64()
 		snapB := func() []uint64 {
-			r := []uint64{uint64(h.under), uint64(h.over)}
-			for _, b := range h.bins {
+			r := []uint64{uint64(h.under), uint64(h.over), uint64(len(h.bins))}
+			for _, b := range bback {
 				r = append(r, uint64(b))
 			}
 			return r
@@ -779,11 +1031,8 @@ func init() {
 			if n < 4 {
 				n = 4
 			}
-			xs := c20Data(rng, n)
-			var ws []float64
-			if rng.Intn(2) == 0 && !lazy { // Scott's rule is not implemented for weighted samples
-				ws = c20Weights(rng, n)
-			}
+			smp := c20Sample(rng, n, rng.Intn(2) == 0 && !lazy) // Scott's rule is not implemented for weighted samples
+			xs, ws := smp.Xs, smp.Weights
 			kern := stats.KDEKernel(rng.Intn(2))
 			bmin, bmax := 0.0, 0.0
 			switch rng.Intn(3) {
@@ -798,8 +1047,19 @@ func init() {
 				bw0 = 0
 			}
 			return func() *c20Inst { // own KDE struct per instance (the Bandwidth cell is the in-place target), shared sample
-				k := &stats.KDE{Sample: stats.Sample{Xs: xs, Weights: ws}, Kernel: kern, Bandwidth: bw0, BoundaryMin: bmin, BoundaryMax: bmax}
-				return &c20Inst{[]func() []uint64{snapF(&xs), snapF(&ws), func() []uint64 { return []uint64{math.Float64bits(k.Bandwidth)} }}, func() []uint64 {
+				k := &stats.KDE{Sample: stats.Sample{Xs: xs, Weights: ws, Sorted: smp.Sorted}, Kernel: kern, Bandwidth: bw0, BoundaryMin: bmin, BoundaryMax: bmax}
+				sx := snapF(&xs)
+				// argument 0 = the sample's Xs AND every field of the KDE other than Bandwidth and Weights (Kernel,
+				// BoundaryMin/Max, BoundaryMethod, Sample.Sorted, the slice headers): only the Bandwidth cell may change
+				snap0 := func() []uint64 {
+					kk := *k
+					kk.Bandwidth, kk.Sample.Xs, kk.Sample.Weights = 0, nil, nil
+					o := sx()
+					deepU(reflect.ValueOf(kk), true, &o, 0)
+					o = append(o, uint64(len(k.Sample.Xs)), uint64(cap(k.Sample.Xs)), uint64(len(k.Sample.Weights)), uint64(cap(k.Sample.Weights)))
+					return o
+				}
+				return &c20Inst{[]func() []uint64{snap0, snapF(&ws), func() []uint64 { return []uint64{math.Float64bits(k.Bandwidth)} }}, func() []uint64 {
 					lo, hi := k.Bounds()
 					return []uint64{math.Float64bits(k.PDF(x)), math.Float64bits(k.CDF(x)), math.Float64bits(lo), math.Float64bits(hi)}
 				}}
@@ -970,6 +1230,11 @@ func c20Find(name string) (int, *c20Call) {
 			return i, &c20Table[i]
 		}
 	}
+	for i := range c20Canaries {
+		if c20Canaries[i].name == name {
+			return len(c20Table) + i, &c20Canaries[i]
+		}
+	}
 	return -1, nil
 }
 
@@ -1010,11 +1275,26 @@ const c20Threads = 16
 func c20Call1(inst *c20Inst) (r []uint64) {
 	defer func() {
 		if e := recover(); e != nil {
+			atomic.AddInt64(&c20PanicCount, 1)
 			r = []uint64{0xbad0bad0, errBits(fmt.Errorf("%v", e))}
 		}
 	}()
 	return inst.call()
 }
+
+// number of library calls that ended in a panic (hand-written entries: the whole call; reflective
+// entries: each method call).  A call that panics has compared nothing: the count observed during
+// the FIRST sequential call of a case is part of the line and the comparator rejects a non-zero
+// count (position 5) - on the unchanged tree no entry panics.
+var c20PanicCount int64
+
+// a result that cannot be canonicalised (a closure of a shape the harness cannot evaluate, a
+// channel): the case is refused (harness failure), never passed unexamined
+var c20Uncomparable atomic.Value
+
+// number of cases this process has run before/including the current one, not counting the
+// reference runs of a fresh child process (C20_FRESH): read by the process-history canary
+var c20RunsInProcess int64
 
 // API names exercised by the hand-written entries above (the reflect:* entries add, at run
 // time, every method they call)
@@ -1032,6 +1312,8 @@ var c20StaticCovered = []string{
 	"stats.InvCDF", "stats.Rand", "stats.KDE.PDF", "stats.KDE.CDF", "stats.KDE.Bounds",
 	"stats.Sample.Sort", "graphalg.Reverse", "graphalg.NodeMarks.Mark", "graphalg.NodeMarks.Unmark",
 	"stats.LinearHist.Add", "stats.LogHist.Add",
+	"stats.TwoSampleTTest", "stats.TwoSampleWelchTTest", "stats.OneSampleTTest", "stats.BandwidthScott", "stats.BandwidthSilverman",
+	"vec.Vectorize",
 }
 
 // API functions that cannot be called from inside the harness, with the reason (reported in
@@ -1078,7 +1360,7 @@ func c20RunWarmup() (*Line, error) {
 	ok := true
 	for ti := range c20Table {
 		for _, size := range []int{4, 12, 60} {
-			c20CapMode = 0
+			c20CapMode, c20Shape, c20Samp = 0, (ti+size)%4, (ti+size)%6
 			fac := c20Table[ti].build(rand.New(rand.NewSource(int64(1000*ti+size))), size)
 			insts := make([]*c20Inst, c20Threads)
 			for i := range insts {
@@ -1100,7 +1382,7 @@ func c20RunWarmup() (*Line, error) {
 		}
 	}
 	l := &Line{}
-	l.I(20).I(30).I(0).B(true).B(ok).I(len(c20Table)).Int(0).I(3)
+	l.I(20).I(30).I(0).B(true).B(ok).I(0).I(len(c20Table)).Int(0).I(3)
 	return l, nil
 }
 
@@ -1111,6 +1393,17 @@ func c20RunAPI(c c20Case) (*Line, error) {
 	api, unc, err := c20Uncovered()
 	if err != nil {
 		return nil, fmt.Errorf("API scan failed: %v", err)
+	}
+	// the scan must SEE what the table calls: a scan that has gone blind (wrong directory, a parse
+	// that silently yields nothing) would otherwise report "nothing uncovered"
+	inAPI := map[string]bool{}
+	for _, a := range api {
+		inAPI[a.Name] = true
+	}
+	for _, n := range c20StaticCovered {
+		if !inAPI[n] {
+			return nil, fmt.Errorf("API scan is blind: it does not find %s, which the table calls (%d functions found)", n, len(api))
+		}
 	}
 	ok := true
 	if strings.HasPrefix(c.Call, "@unlisted:") {
@@ -1123,7 +1416,7 @@ func c20RunAPI(c c20Case) (*Line, error) {
 		}
 	}
 	l := &Line{}
-	l.I(20).I(30).I(0).B(ok).B(true).I(len(api)).Int(0).I(len(unc))
+	l.I(20).I(30).I(0).B(ok).B(true).I(0).I(len(api)).Int(0).I(len(unc))
 	return l, nil
 }
 
@@ -1143,11 +1436,23 @@ func c20Run(raw []byte) (*Line, error) {
 		return nil, fmt.Errorf("bad size")
 	}
 	mk := func() func() *c20Inst { return call.build(rand.New(rand.NewSource(c.Seed)), c.Size) }
+	if os.Getenv("C20_FRESH") == "" {
+		atomic.AddInt64(&c20RunsInProcess, 1)
+	}
+	c20Uncomparable.Store("")
 	// 1. mutation
 	if c.Cap < 0 || c.Cap > 2 {
 		return nil, fmt.Errorf("bad cap mode")
 	}
+	if c.Shape < 0 || c.Shape > 3 || c.Samp < 0 || c.Samp > 5 {
+		return nil, fmt.Errorf("bad shape")
+	}
+	c20Shape, c20Samp = c.Shape, c.Samp
 	c20CapMode = c.Cap
+	if c.Sp < 0 || c.Sp > 2 {
+		return nil, fmt.Errorf("bad sp")
+	}
+	c20Special = c.Sp
 	c20Floats, c20Scramble = nil, nil
 	c20BackF, c20BackI = map[*float64][]float64{}, map[*int][]int{}
 	inst := mk()()
@@ -1182,7 +1487,10 @@ func c20Run(raw []byte) (*Line, error) {
 			sc()
 		}
 	}
+	atomic.StoreInt64(&c20PanicCount, 0)
+	atomic.StoreInt32(&c20CanaryFirstCall, 1)
 	r1 := c20Call1(inst)
+	panics := atomic.LoadInt64(&c20PanicCount)
 	if os.Getenv("C20_FRESH") != "" {
 		// reference mode: this process has made no other call; report only a hash of the result
 		l := &Line{}
@@ -1193,18 +1501,30 @@ func c20Run(raw []byte) (*Line, error) {
 	for i, a := range inst.args {
 		mutated[i] = !eqU(before[i], a())
 	}
+	// the same call on the same arguments, three times in all: the FULL canonical result (every
+	// list in order) must repeat - e.g. an order taken from a map iteration does not
+	det3 := true
+	if call.routine < 20 {
+		for k := 0; k < 2; k++ {
+			if !eqU(r1, c20Call1(inst)) {
+				det3 = false
+			}
+		}
+	}
 	// 2. history: unrelated calls, then the same call on freshly built equal arguments
 	hr := rand.New(rand.NewSource(c.Seed ^ 0x5eed))
+	c20Special = 0 // the unrelated calls run on ordinary data
 	for k := 0; k < 4; k++ {
 		o := &c20Table[hr.Intn(len(c20Table))]
 		c20Call1(o.build(rand.New(rand.NewSource(hr.Int63())), 3+hr.Intn(20))())
 	}
-	det := eqU(r1, c20Call1(mk()()))
+	c20Special = c.Sp
+	det := det3 && eqU(r1, c20Call1(mk()()))
 	// ... also when the SAME buffers hold different data at a later call (a cache keyed by slice
 	// identity would go stale): overwrite the argument arrays in place with other values v2 and
 	// call again; the result must equal, bit for bit, that of a call on NEWLY ALLOCATED arrays
 	// holding v2 which the library has never seen; then restore the contents and call once more
-	if det && call.routine < 20 {
+	if det && (call.routine < 20 || call.routine == c20CanaryNondet) {
 		c20Call1(inst) // the library has just seen these arrays with the old contents
 		var restore []func()
 		for _, sc := range scramblers {
@@ -1309,11 +1629,19 @@ func c20Run(raw []byte) (*Line, error) {
 	for _, m := range mutated {
 		l.B(m)
 	}
-	l.B(det).B(conc).I(idx).Int(c.Seed & 0xffffffff).I(c.Size)
+	l.B(det).B(conc).I(int(panics)).I(idx).Int(c.Seed & 0xffffffff).I(c.Size)
+	if u, _ := c20Uncomparable.Load().(string); u != "" {
+		return nil, fmt.Errorf("%s: a result cannot be canonicalised (%s): add a hand-written entry that evaluates it", call.name, u)
+	}
 	return l, nil
 }
 
-func c20Gen(tier string, rng *rand.Rand, emit func(interface{})) {
+func c20Gen(tier string, rng *rand.Rand, emit0 func(interface{})) {
+	// the number of cases emitted is printed at the very end: a run that dies half-way is
+	// recognised by the missing sentinel (bin/plugins/C20.py checks it for the -race twin)
+	emitted := 0
+	emit := func(c interface{}) { emitted++; emit0(c) }
+	defer func() { fmt.Fprintf(os.Stderr, "[C20] gen complete: %d cases\n", emitted) }()
 	// the API surface of the tree under test: one case for the scan, one per uncovered function
 	api, unc, err := c20Uncovered()
 	if os.Getenv("C20_LIST_API") != "" {
@@ -1346,11 +1674,26 @@ func c20Gen(tier string, rng *rand.Rand, emit func(interface{})) {
 			if r == 3 || r == 4 {
 				size = 5 - r // 2 and 1: the smallest inputs, special-cased paths
 			}
-			emit(c20Case{Call: c.name, Seed: rng.Int63(), Size: size, Cap: (r + 2) % 3})
+			emit(c20Case{Call: c.name, Seed: rng.Int63(), Size: size, Cap: (r + 2) % 3, Shape: r % 4, Samp: r % 6})
+			if sp := c20SpecialFor(c.name); sp != 0 && r%3 == 1 { // the same entry on data with NaN, +-Inf, -0, extremes
+				emit(c20Case{Call: c.name, Seed: rng.Int63(), Size: size, Cap: r % 3, Sp: sp})
+			}
 			if strings.HasPrefix(c.name, "mathx.") { // scalar calls are cheap: many more parameter draws
 				for x := 0; x < 15; x++ {
 					emit(c20Case{Call: c.name, Seed: rng.Int63(), Size: size})
 				}
+			}
+		}
+		// the harness's self-test: deliberately impure / history-dependent / schedule-dependent functions
+		// defined in c20canary.go go through exactly the same pipeline; the comparator DEMANDS that they
+		// are flagged, so a harness that has gone blind in one of its stages fails the run
+		if r < 6 {
+			for _, c := range c20Canaries {
+				cc := c20Case{Call: c.name, Seed: rng.Int63(), Size: 3 + rng.Intn(30), Cap: (r + 2) % 3}
+				if c.name == "canary:nondet/process" && os.Getenv("C20_NOFRESH") == "1" {
+					continue // only the fresh-process reference can see it, and the -race twin makes none
+				}
+				emit(cc)
 			}
 		}
 	}
